@@ -155,6 +155,13 @@ def showErr : OpErr → String
   | .tape => "err:tape" | .zerodiv => "err:zerodiv" | .domain => "err:domain" | .index => "err:index"
   | .platypus => "err:platypus" | .arity => "err:arity" | .fuel => "err:fuel"
 
+/-- `[counts[i] / float(sum(counts)) for i in ...]` -/
+def mmNewProbs (counts : List Nat) : List F := counts.map fun c => Float.ofNat c / Float.ofNat counts.sum
+/-- `[1.0 / len(variators) for _ in ...]` -/
+def mmInitProbs (n : Nat) : List F := List.replicate n (1.0 / Float.ofNat n)
+def showMM (st : MMState F) : String :=
+  s!"{st.next} {st.lastUpdate} {st.probs.length} {" ".intercalate (st.probs.map showFlt)}"
+
 def opsOperators (op : String) : Option (P String) :=
   match op with
   | "oper" => some do
@@ -165,6 +172,27 @@ def opsOperators (op : String) : Option (P String) :=
       match o.evolve parents tape with
       | .error e => pure (showErr e)
       | .ok (kids, rest) => pure s!"ok {o.arity} {rest.length} {" ".intercalate (kids.map showSol)}"
+  | "mminit" => some do
+      let n ← nat; let freq ← nat
+      let counts ← list nat
+      let tape ← list draw
+      match multimethodInit (0.0 : F) pySumF mmNewProbs mmInitProbs n freq counts tape with
+      | .error e => pure (showErr e)
+      | .ok (st, rest) => pure s!"ok {rest.length} {showMM st}"
+  | "mm" => some do
+      let types ← list typeD
+      let n ← nat
+      let vs ← (List.range n).mapM fun _ => operExpr types
+      let nx ← nat; let lu ← nat; let freq ← nat
+      let probs ← list flt
+      let counts ← list nat
+      let parents ← list (osol types)
+      let tape ← list draw
+      let st : MMState F := { next := nx, lastUpdate := lu, freq := freq, probs := probs }
+      match multimethodEvolve (0.0 : F) pySumF mmNewProbs vs counts st parents tape with
+      | .error e => pure (showErr e)
+      | .ok (((kids, tag), st'), rest) =>
+        pure s!"ok {rest.length} {tag} {multimethodArity vs st'} {showMM st'} | {" ".intercalate (kids.map showSol)}"
   | _ => none
 
 end OpsOperators
